@@ -50,10 +50,11 @@ const c05CrossChainPolicyOffIsViolation = true
 func init() {
 	kit.Register(&kit.Spec{
 		ID:      "C05",
-		Rule:    "A: generated TransferAsset transactions whose references name 1..4 addresses drawn from {standard, m-of-n multisig n<=7, multisig code under standard/deposit prefix, deposit-standard, Schnorr aggregate of 1..4 keys, cross-chain m-of-n}, optionally one more address through a Script attribute; witnesses signed with real P-256 keys over the unsigned bytes, then exactly one adversarial variant (see counter names variant:*) applied to one address/program; each case is evaluated by RunPrograms (positional) and by the context check's signature step (sorted). B: the same variants on transactions that spend real UTXOs of a live regnet node through the mempool and blocks. distinct = distinct (variant, address kinds, unsigned bytes); non-trivial = a witness with at least one genuine signature reached RunPrograms (no length/count shortcut). X (c05_exempt.go, shards 8..): on live dpos-era / dposv2-era nodes, every transaction type whose validation can end before checkTransactionSignature has seen all inputs (enumerated at run time on the real functions: VotesRealWithdraw, DposV2ClaimRewardRealWithdraw, CRCProposalRealWithdraw, CRCAppropriation, CRAssetsRectify, CRCProposalWithdraw v0, ActivateProducer of an inactive CR council member) gets the honest instance (node-generated where the node generates it) and crafted variants that add or substitute a third party's ordinary UTXO with no / a foreign program, through AppendToTxPool and through a hand-assembled arbiter-confirmed block; RevertToDPOS and UpdateVersion (no inputs, authorised by an m-of-n arbiter program) get forged program signatures; a case = one (type, variant, mempool|block) submission, non-trivial = it reached the validators",
+		Rule:    "A: generated TransferAsset transactions whose references name 1..4 addresses drawn from {standard, m-of-n multisig n<=7, multisig code under standard/deposit prefix, deposit-standard, Schnorr aggregate of 1..4 keys, cross-chain m-of-n}, optionally one more address through a Script attribute; witnesses signed with real P-256 keys over the unsigned bytes, then exactly one adversarial variant (see counter names variant:*) applied to one address/program; each case is evaluated by RunPrograms (positional) and by the context check's signature step (sorted). B: the same variants on transactions that spend real UTXOs of a live regnet node through the mempool and blocks. distinct = distinct (variant, address kinds, unsigned bytes); non-trivial = a witness with at least one genuine signature reached RunPrograms (no length/count shortcut). X (c05_exempt.go, shards 8..): on live dpos-era / dposv2-era nodes, every transaction type whose validation can end before checkTransactionSignature has seen all inputs (enumerated at run time on the real functions: VotesRealWithdraw, DposV2ClaimRewardRealWithdraw, CRCProposalRealWithdraw, CRCAppropriation, CRAssetsRectify, CRCProposalWithdraw v0, ActivateProducer of an inactive CR council member) gets the honest instance (node-generated where the node generates it) and crafted variants that add or substitute a third party's ordinary UTXO with no / a foreign program, through AppendToTxPool and through a hand-assembled arbiter-confirmed block; RevertToDPOS and UpdateVersion (no inputs, authorised by an m-of-n arbiter program) get forged program signatures; a case = one (type, variant, mempool|block) submission, non-trivial = it reached the validators. R (c05_replay.go, on the live node of B): two-step program replay — a genuine spend tx1 is verified by the node (mempool, then block), then its programs are presented again byte for byte on tx2 spending another output of the same address(es) and on tx1 with changed signed content, through mempool and block; a case = one re-presentation, all non-trivial. Probes (c05_probe.go): for every user-built type a builder exists for (TransferAsset, Record, RegisterProducer, CRCProposal, CRCProposalWithdraw v1+, ExchangeVotes, ReturnVotes, DposV2ClaimReward) an instance valid in the current state but funded by a third party's UTXO, with no / a foreign / a garbage witness, through mempool and block; these decide any (type, payload version) the enumeration finds newly exempt from the signature step",
 		Shards:  func(tier string) int { return c05BaseShards + c05ExemptShards(tier) },
 		Run:     runC05,
-		Require: append([]string{"A_positional_calls", "A_sorted_calls", "A_impl_accept", "A_impl_reject", "A_honest_accepted", "A_model_accept", "A_model_reject", "A_reject_agree", "kind:standard", "kind:multisig", "kind:schnorr", "kind:crosschain", "kind:deposit-standard", "variant:data-flip", "variant:same-key-multi-slot", "variant:same-sig-repeated", "variant:dup-key-script", "variant:prefix-swap", "variant:nonmember-sig", "B_submissions", "B_honest_accepted", "B_rejected_at_signature_step", "B_mined_spends", "model_ecdsa_cross_checks"}, c05xRequire...),
+		Require: append([]string{"A_positional_calls", "A_sorted_calls", "A_impl_accept", "A_impl_reject", "A_honest_accepted", "A_model_accept", "A_model_reject", "A_reject_agree", "kind:standard", "kind:multisig", "kind:schnorr", "kind:crosschain", "kind:deposit-standard", "variant:data-flip", "variant:same-key-multi-slot", "variant:same-sig-repeated", "variant:dup-key-script", "variant:prefix-swap", "variant:nonmember-sig", "B_submissions", "B_honest_accepted", "B_rejected_at_signature_step", "B_mined_spends", "model_ecdsa_cross_checks"}, append(append(c05ReplayRequire, c05xProbeRequire...), c05xRequire...)...),
+		Post:    c05xPost,
 		Assumptions: []string{"Go standard library crypto/ecdsa, crypto/elliptic, crypto/sha256 and x/crypto/ripemd160 are correct",
 			"cross-chain (X) addresses: by the node's documented design (test/unit TestRunProgramsAllowsDynamicCrossChainWitness) the witness script is not bound to the address by hash; the model demands only m-of-n there and the live-node part checks the transaction-type policy instead",
 			"a panic inside the validation call is counted and treated as a rejection (panic freedom is property C03)",
@@ -930,7 +931,23 @@ func runC05Live(c *kit.Ctx, g *c05Gen) {
 			outs = append(outs, node.Out{To: a.hash, Value: per})
 		}
 	}
-	outs = append(outs, node.Out{To: nd.Found.ProgramHash, Value: gen.Value - per*common.Fixed64(len(outs)) - 10000})
+	// part R (c05_replay.go): outputs of their own, after the change output, so that part B's indices stay as they were
+	repPer := c.N(6, 16)
+	nRep := 0
+	for _, a := range addrs {
+		if c05ReplayEligible(a) {
+			nRep += repPer
+		}
+	}
+	changeIdx := len(outs)
+	outs = append(outs, node.Out{To: nd.Found.ProgramHash, Value: gen.Value - per*common.Fixed64(len(outs)+nRep) - 10000})
+	for _, a := range addrs {
+		if c05ReplayEligible(a) {
+			for k := 0; k < repPer; k++ {
+				outs = append(outs, node.Out{To: a.hash, Value: per})
+			}
+		}
+	}
 	fund := node.Transfer([]node.UTXORef{gen}, outs, common2.TxVersion09)
 	if err := nd.TxPool.AppendToTxPool(fund); err != nil {
 		c.Inconclusive("funding tx rejected: %v", err)
@@ -945,6 +962,18 @@ func runC05Live(c *kit.Ctx, g *c05Gen) {
 	for i, a := range addrs {
 		for k := 0; k < perAddr; k++ {
 			utxos = append(utxos, &c05Utxo{ref: node.UTXORef{TxID: fund.Hash(), Index: uint16(i*perAddr + k), Value: per}, addr: a})
+		}
+	}
+	rep := map[*c05Addr][]*c05Utxo{}
+	{
+		idx := changeIdx + 1
+		for _, a := range addrs {
+			if c05ReplayEligible(a) {
+				for k := 0; k < repPer; k++ {
+					rep[a] = append(rep[a], &c05Utxo{ref: node.UTXORef{TxID: fund.Hash(), Index: uint16(idx), Value: per}, addr: a})
+					idx++
+				}
+			}
 		}
 	}
 	take := func(a *c05Addr) *c05Utxo {
@@ -1235,6 +1264,8 @@ func runC05Live(c *kit.Ctx, g *c05Gen) {
 			}
 		}
 	}
+	// part R: witnesses the node has already verified, presented again on other content
+	c05ProgramReplay(c, nd, g, addrs, rep, dest)
 	// conservation sanity of what the node built (guards against a harness that mined nonsense)
 	l := nd.Replay()
 	for _, is := range l.Issues {
